@@ -62,6 +62,11 @@ func (p *prefixedReadSeekCloser) Read(b []byte) (int, error) {
 	if prefBytes > 0 {
 		k, _ := p.prefix.Read(b[:prefBytes]) // io.EOF can't happen because of prefBytes and bytes.Reader can't have other errors.
 		n = k
+		if prefBytes == len(b) {
+			// b is full, do not consult the rest: it may report io.EOF for an
+			// empty buffer while the prefix still has unread bytes.
+			return n, nil
+		}
 	}
 
 	k, err := p.rest.Read(b[prefBytes:])
